@@ -38,6 +38,60 @@ CFG = {
     },
 }
 ROOTS = ['dumper::dump_charp']
+
+# ---- integers: radix rendering round trip -----------------------------------------------------------
+import copy, importlib.util
+_spec = importlib.util.spec_from_file_location('c08prop', os.path.join(HERE, '..', 'c08', 'prop.py'))
+_c08 = importlib.util.module_from_spec(_spec)
+_spec.loader.exec_module(_c08)
+PARSE_CFG, PARSE_ROOTS = _c08.PARSE_CFG, _c08.PARSE_ROOTS
+
+OSEXT = {k: v for k, v in CFG['extern'].items()}
+OSEXT.update({
+    r'std::basic_ostream<char(, std::char_traits<char>)?>::operator<<\|.*\(unsigned long\)': 'os_put_ulong',
+    r'std::basic_ostream<char(, std::char_traits<char>)?>::operator<<\|.*\(long\)': 'os_put_long',
+    r'std::oct': 'os_manip_oct', r'std::showbase': 'os_manip_showbase',
+})
+INTIO_CFG = {
+    'names': {'_ZlsRSo9mpz_class': 'mpz_print', '_Zlt9mpz_classS_': 'io_mpz_lt', '_Zng9mpz_class': 'io_mpz_neg',
+              '_ZN9mpz_classC1Ei': 'io_mpz_from_int', '_ZN9mpz_classC1Em10signedness': 'io_mpz_mk'},
+    'types': CFG['types'], 'types_are_records': CFG['types_are_records'], 'record_ctypes': CFG['record_ctypes'],
+    'types_prelude': '#include "osmodel.h"\n', 'functor_types': CFG['functor_types'],
+    'raise': ['(anonymous namespace)::int_error'],
+    'extern': OSEXT,
+}
+INTIO_ROOTS = ['_ZlsRSo9mpz_class']
+
+
+def show_root(domname):
+    """The radix domains are objects of anonymous structs; pick the one whose name() returns `domname`."""
+    def pick(tu, lw):
+        import cxx2c
+        for nid, n in tu.by_id.items():
+            if n.get('kind') != 'CXXRecordDecl' or not n.get('completeDefinition'):
+                continue
+            meths = {k.get('name'): k for k in cxx2c.kids(n) if k.get('kind') == 'CXXMethodDecl'}
+            if 'name' in meths and 'show' in meths:
+                txt = json.dumps(meths['name'])
+                if '"value": "\\"%s\\""' % domname in txt:
+                    m = meths['show'].get('mangledName')
+                    lw.names[m] = 'show_' + domname
+                    return m
+        raise cxx2c.Unsupported('no domain class whose name() returns "%s"' % domname)
+    return pick
+
+
+SHOW_CFG = {
+    'names': {'numeric_constant_dom_t::show': 'show_dec', 'ios_flag_saver::ios_flag_saver': 'show_ifs_ctor',
+              'ios_flag_saver::~ios_flag_saver': 'show_ifs_dtor'},
+    'types': CFG['types'], 'types_are_records': CFG['types_are_records'], 'record_ctypes': CFG['record_ctypes'],
+    'types_prelude': '#include "osmodel.h"\n', 'functor_types': CFG['functor_types'],
+    'extern': dict(OSEXT, **{r'operator<<\|std::ostream &\(std::ostream &, mpz_class\)': 'mpz_print'}),
+    'extern_may_raise': ['mpz_print'],
+    'extern_ret': {'mpz_print': 'verif_os *'},
+    'bodies_prelude': 'verif_os *mpz_print(verif_os *o, mpz_class value);\n',
+}
+SHOW_ROOTS = [show_root('hex'), show_root('oct'), 'numeric_constant_dom_t::show']
 INPUTS = ['len', 'in[*']
 FLAGS = ['-I%s' % vlib.REPO]
 
@@ -53,6 +107,22 @@ def jobs(tier):
     J.append(Job('full_verbatim_len%d' % n, src, 'hb_full_verbatim', includes=inc, inputs=INPUTS,
                  defines=['C20_LEN=%d' % n, 'OS_CAP=%d' % (4 * n + 4)], kind='bounded', unwind=4 * n + 8, timeout=600,
                  note='bounded: all byte strings of length <= %d' % n))
+    kf = [k for k in vlib.load_known_findings().get('findings', []) if k.get('property') == PID and k.get('job') == 'known_zero_domain']
+    kf_defs = ['RADIX_ZERO_DOMAIN_KNOWN'] if kf else []
+    rsrc = [os.path.join(HERE, 'radix_harness.c'), os.path.join(OUT, 'intio_bodies.c'), os.path.join(OUT, 'show_bodies.c'),
+            os.path.join(OUT, 'parse_bodies.c')]
+    for radix, extra, note in (('hex', [], 'all 2^65 values'), ('oct', [], 'all 2^65 values'),
+                               ('dec', ['RADIX_SMALL=%d' % (9999 if tier == 'quick' else 999999)],
+                                'BOUNDED: |value| <= %d (decimal digit arithmetic is out of the solver\'s reach for all values)' % (9999 if tier == 'quick' else 999999))):
+        J.append(Job('radix_roundtrip_' + radix, rsrc, 'hb_radix_' + radix, includes=inc + [os.path.join(HERE, '..', 'c08')],
+                     inputs=['v.*', 'v'], input_fns=['roundtrip'], defines=['OS_CAP=32', 'PARSE_MAXLEN=30'] + extra + kf_defs,
+                     kind='bounded' if radix == 'dec' else 'proof', unwind=28, timeout=1500,
+                     note='render by <domain>::show, read back by parse_int; %s; loops bounded by the number of digits of a '
+                          '64-bit value (full unwinding)' % note))
+    if kf:
+        J.append(Job('known_zero_domain', rsrc, 'hb_known_zero_domain', includes=inc + [os.path.join(HERE, '..', 'c08')],
+                     defines=['OS_CAP=32', 'PARSE_MAXLEN=30'], kind='proof', unwind=28, timeout=600,
+                     note='witness of the listed known finding (exactly value 0 in the hex and oct domains); the round-trip jobs exclude exactly these inputs'))
     J.append(Job('control', src, 'hb_control', includes=inc, defines=['VERIF_CONTROL', 'C20_LEN=1', 'OS_CAP=16'],
                  kind='control', expect='fail', unwind=16, timeout=300))
     return J
@@ -77,6 +147,13 @@ def spec_files():
 
 def prepare(tier):
     lw = vlib.extract('dump', 'dwgrep/dwgrep.cc', CFG, ROOTS, OUT, extra_flags=FLAGS)
+    io = vlib.extract('intio', 'libzwerg/int.cc', INTIO_CFG, INTIO_ROOTS, OUT)
+    sh = vlib.extract('show', 'libzwerg/constant.cc', SHOW_CFG, SHOW_ROOTS, OUT)
+    gen = vlib.gen_frontend(os.path.join(OUT, 'gen'))
+    pw = vlib.extract('parse', os.path.join(gen, 'parser.cc'), PARSE_CFG, PARSE_ROOTS, OUT, extra_flags=['-I' + gen])
+    for u in (io, sh, pw):
+        lw.report['functions'] += u.report['functions']
+        lw.report['externals'] += u.report['externals']
     return {'unit': 'dwgrep/dwgrep.cc', 'functions': lw.report['functions'], 'externals': lw.report['externals']}
 
 
@@ -157,7 +234,35 @@ def replay_bytes(bs):
             'read_back': None if back is None else list(back)}
 
 
+def replay_radix(r):
+    radix = r.job.name.rsplit('_', 1)[1]
+    def num(x):
+        s = str(x)
+        return int(''.join(ch for ch in s if ch.isdigit()) or 0)
+    u = None
+    sign = 0
+    for k, v in r.cex.items():
+        if k.endswith('m_u'):
+            u = num(v)
+        if k.endswith('m_sign'):
+            sign = 1 if (str(v).strip().endswith('__sign') or str(v).strip() in ('1',)) else 0
+    if u is None:
+        return {'reproduced': False, 'note': 'no value in the counterexample'}
+    val = u - (1 << 64) if (sign and u >= 1 << 63) else u
+    word = {'hex': 'hex', 'oct': 'oct', 'dec': 'dec'}[radix]
+    res = vlib.zw_queries(['%d %s' % (val, word)], OUT)
+    if not res or res[0][0] is None:
+        return {'reproduced': False, 'error': 'query failed: %r' % (res,)}
+    text = res[0][1].strip()
+    res2 = vlib.zw_queries(['(%s) == (%d)' % (text, val), '%s %s' % (text, word)], OUT)
+    same_value = bool(res2 and res2[0][0])
+    return {'reproduced': not same_value, 'value': val, 'domain': word, 'rendering_on_real_library': text,
+            'reads_back_equal': same_value, 'raw': [x[1] for x in res2]}
+
+
 def replay(r):
+    if r.job.name.startswith('radix_roundtrip_'):
+        return replay_radix(r)
     if not r.cex or 'len' not in r.cex:
         return {'reproduced': False, 'note': 'no input in the counterexample'}
     def num(x):
@@ -168,3 +273,9 @@ def replay(r):
     n = num(r.cex['len'])
     bs = [num(r.cex.get('in[%dl]' % i, r.cex.get('in[%d]' % i, 0))) for i in range(n)]
     return replay_bytes(bs)
+
+
+def finding_covers(k, r, rep):
+    """The listed finding is exactly: value 0 of the hex/oct domain renders as "0" and reads back as decimal.
+    Only the witness job (which runs exactly those inputs) can be covered by it."""
+    return r.job.name == 'known_zero_domain' and k.get('job') == 'known_zero_domain'
